@@ -717,7 +717,7 @@ func runDepthArm(ctx *Ctx) {
 	i := 0
 	// every message-typed decode site: walks of length 1 and 2 from every type,
 	// with the limit exactly exhausted (reject) and one above (accept)
-	for ti, t := range model.Types() {
+	for ti, t := range model.TypesNoBulk() {
 		if (ctx.OnlyFresh && !t.Fresh) || ti%ctx.NShards != ctx.Shard {
 			continue
 		}
@@ -740,7 +740,7 @@ func runDepthArm(ctx *Ctx) {
 			cases = append(cases, depthCase{Type: string(t.Name), Hops: w, Limit: len(w) + 1, Width: 3}, depthCase{Type: string(t.Name), Hops: w, Limit: len(w), Width: 3})
 		}
 	}
-	for ti, t := range model.Types() {
+	for ti, t := range model.TypesNoBulk() {
 		if (ctx.OnlyFresh && !t.Fresh) || ti%ctx.NShards != ctx.Shard || (ctx.Quick() && (ti/ctx.NShards+int(ctx.Seed))%4 != 0) {
 			continue
 		}
@@ -748,7 +748,7 @@ func runDepthArm(ctx *Ctx) {
 			cases = append(cases, depthCase{Type: string(t.Name), Groups: n})
 		}
 	}
-	for _, t := range model.Types() {
+	for _, t := range model.TypesNoBulk() {
 		if ctx.OnlyFresh && !t.Fresh {
 			continue
 		}
@@ -1112,7 +1112,7 @@ func replayC06(ctx *Ctx, c *Case) error {
 // ---- native fuzz target --------------------------------------------------
 
 func fuzzOne(ctx *Ctx, data []byte) error {
-	types := model.Types()
+	types := model.TypesNoBulk()
 	if len(data) < 2 || len(types) == 0 {
 		return nil
 	}
@@ -1121,7 +1121,7 @@ func fuzzOne(ctx *Ctx, data []byte) error {
 }
 
 func fuzzDecode(f *testing.F) {
-	types := model.Types()
+	types := model.TypesNoBulk()
 	// seeds: empty input and hostile constants for a few types, plus valid encodings
 	for i := range types {
 		hdr := []byte{byte(i >> 8), byte(i)}
